@@ -81,6 +81,7 @@ struct EdgeSlot {
     MEDDLY::dd_edge* e = nullptr;
     uint64_t born = 0;          // step at which the function was obtained
     int id = 0;                 // stable name for traces
+    bool fexact = true;         // EV*: obtained without float arithmetic (construction / copy only)
 };
 
 struct IterSlot {
